@@ -1,4 +1,4 @@
-HOOK_COMMITS = ["90d925a", "8940632", "5dcbe49", "0243fbe", "56c02d7", "1d7d127", "9681393", "301afe1", "c53dffa", "67987dc", "2fe230a", "be4cb7c", "58c1ed1", "db7e45f", "15dd738", "60f6e04", "5ca7db3", "6c5726d", "77776c2"]
+HOOK_COMMITS = ["90d925a", "8940632", "5dcbe49", "0243fbe", "56c02d7", "1d7d127", "9681393", "301afe1", "c53dffa", "67987dc", "2fe230a", "be4cb7c", "58c1ed1", "db7e45f", "15dd738", "60f6e04", "5ca7db3", "6c5726d", "77776c2", "3f0d0a1"]
 
 CHAIN_NOTE = ("Assumed: delegation.Loader.GetDelegation is a function of (loader, cid) during one check and returns a non-nil token when err == nil; "
               "time.Now() names one instant per check and After/Before compare abstract instants; fmt.Errorf returns non-nil; "
@@ -68,7 +68,7 @@ CLAIMED["C10"] = dict(
     note="Assumed: bindnode schema strictness (unknown, missing or wrongly typed payload fields are rejected by AssignNode against the embedded .ipldsch) — a dependency behaviour contracts cannot decide here; "
          "the reflection-based slow path of literal.Any (anyAssemble) is abstracted; policy.FromIPLD is used through a trusted contract (its shape is C14).",
     design="DESIGN.md §3 C10")
-for pid in ["C07","C08","C09","C11","C12","C14","C16","C17","C18","C19"]:
+for pid in ["C07","C09","C11","C14","C16","C19"]:
     NOT_APPLICABLE[pid] = "contracts for this property are not registered yet in this tree (work in progress; see DESIGN.md §6 staging)"
 
 STREAM_NOTE = ("Assumed (trusted, stubs/io.spec): the io.Reader / io.Writer protocol; delivered/written and the fault counters failed/wfailed are ghost history variables of the "
@@ -100,3 +100,17 @@ CLAIMED["C18"] = dict(
          "including the final flush of the base64 encoder; ldRead / readBlock return io.EOF only at a section boundary and never after a fault.",
     note=STREAM_NOTE + " Chunking independence is inherited from the assumed codec contract (decode of the delivered prefix).",
     design="DESIGN.md §3 C18, §7")
+
+CLAIMED["C12"] = dict(
+    text="Proof (unbounded): selector.resolve is verified, for a symbolic selector of symbolic length over an abstract node algebra, to return exactly the fold of one-segment steps: "
+         "a trace tr(i) is defined by tr(0) = subject, tr(i+1) = stepVal(sel[i], tr(i)); the loop invariant is cur == tr(k) and no earlier step failed; err == nil implies result == tr(len(sel)) and no step fails, "
+         "err != nil implies some step fails and none before it — so no part of a selector is ignored and no value is returned early. stepVal / stepFails are the documented one-segment semantics: fields on maps, "
+         "indexes on lists and bytes with negative indexes from the end, slices on lists / bytes / strings by code point with Python clamping (resolveSliceIndices is verified against Python's slice.indices), the iterator "
+         "(map -> list of its values in iteration order, list unchanged, optional on null -> empty list), identity; failing optional steps yield no-value, which is carried on to the next step. "
+         "The lists the code builds through qp.BuildList callbacks are proved element by element (loop invariants over the assembled sequence) to be the values of the map / the requested range of the list.",
+    note="Modelling decision: a node built by go-ucan (basicnode.New*, qp.BuildList) is identified with its constructor arguments (nodes are immutable data; go-ucan never compares node identities). "
+         "Assumed (stubs/ipld.spec): node observers (Kind, Length, LookupBy*, As*, iterators) as functions of the abstract node structure; qp.BuildList with basicnode.Prototype.Any fails only if its callback panics "
+         "(every panic site in the callbacks is discharged as unreachable); []rune(s) / string(runes) through uninterpreted rune functions (runeCount, runeSlice). "
+         "The trace function is introduced by a definitional `given` clause (conservative: recursion over the selector). "
+         "A quoted empty field name `[\"\"]` is represented like index 0 by the parser; the contract follows the representation (the text-level reading is C14).",
+    design="DESIGN.md §3 C12, §7")
